@@ -265,6 +265,11 @@ class ParseModel(object):
                 if not lam:
                     continue
                 refs = {n.ref for n in lam[0].find('DeclRefExpr')}
+                asks = any(strip(c_.kids[0]).ref == self.p_scaffold for c_ in lam[0].find('CallExpr') if c_.kids)
+                via_lambda = any(strip(c_.kids[1]).ref in locals_ and (locals_[strip(c_.kids[1]).ref].type or '').startswith('(lambda')
+                                 for c_ in lam[0].find('CXXOperatorCallExpr') if len(c_.kids) >= 2 and strip(c_.kids[0]).ref == 'operator()')
+                if not asks and not via_lambda:
+                    continue            # uses a callback without asking it (e.g. hands it to a lookup function)
                 if self.p_bin in refs:
                     self.lam['binary'] = name
                 elif self.p_un in refs:
